@@ -5,6 +5,7 @@ package xmpp
 import (
 	"errors"
 	"fmt"
+	"os"
 	"regexp"
 	"strings"
 	"testing"
@@ -78,12 +79,48 @@ func c12body(seq []int, sm bool, writeFails bool, reset bool, mode string) func(
 				return nil
 			})
 		}
+		if mode == "logger-eof-with-data" {
+			// the traffic logger sits in the read path
+			f, err := os.CreateTemp("", "verif-c12-*.log")
+			if err != nil {
+				vrt.Fail("C12|harness|tempfile", "%v", err)
+				return
+			}
+			defer func() { f.Close(); os.Remove(f.Name()) }()
+			s.cl.transport.LogTraffic(f)
+		}
+		resumedFromHandler := false
+		var resumeErr error
+		if mode == "reconnected-from-handler" {
+			// the connection under test was established from inside the Disconnected handler of the previous
+			// one (what StreamManager does): the previous receive loop is still unwinding when it starts
+			prev := s.cl.Handler
+			s.cl.SetHandler(func(e Event) error {
+				if prev != nil {
+					prev(e)
+				}
+				if e.State.state == StateDisconnected && !resumedFromHandler {
+					resumedFromHandler = true
+					resumeErr = s.cl.Resume()
+				}
+				return nil
+			})
+		}
 		if err := s.cl.Connect(); err != nil {
 			vrt.Fail("C12|harness|connect", "%v", err)
 			return
 		}
 		vrt.WaitIdle()
 		connIdx := 0
+		if mode == "reconnected-from-handler" {
+			s.conn(0).close()
+			vrt.WaitIdle()
+			if !resumedFromHandler || resumeErr != nil {
+				vrt.Fail("C12|harness|reconnect", "Resume from the handler: called=%v err=%v", resumedFromHandler, resumeErr)
+				return
+			}
+			connIdx = 1
+		}
 		if mode == "second-connection" {
 			s.conn(0).close()
 			vrt.WaitIdle()
@@ -112,6 +149,10 @@ func c12body(seq []int, sm bool, writeFails bool, reset bool, mode string) func(
 		vrt.Quiet(false)
 		if cut > 0 {
 			conn.send(full[:cut])
+		}
+		if strings.HasSuffix(mode, "eof-with-data") {
+			// the read that returns the last bytes reports the end of the connection at the same time
+			conn.raw.Peer().EOFWithData = true
 		}
 		if reset {
 			// the loss shows up as a read error (connection reset), not as an orderly end of stream
@@ -244,7 +285,7 @@ func TestVerifC12(t *testing.T) {
 						Opt: vrt.Options{Bound: bound, Horizon: 100000}, Body: c12body(q, sm, wf, rst, ""), Verdict: c12verdict})
 				}
 				if !wf && len(q) <= 2 {
-					for _, mode := range []string{"handler-waits", "second-connection"} {
+					for _, mode := range []string{"handler-waits", "second-connection", "reconnected-from-handler", "eof-with-data", "logger-eof-with-data"} {
 						scs = append(scs, hx.Scenario{Name: fmt.Sprintf("seq=%s/sm=%v/mode=%s", strings.Join(n, ","), sm, mode),
 							Opt: vrt.Options{Bound: bound, Horizon: 100000}, Body: c12body(q, sm, false, false, mode), Verdict: c12verdict})
 					}
